@@ -2,6 +2,7 @@
 package html
 
 import (
+	"bytes"
 	"strconv"
 
 	"github.com/tdewolff/parse/v2"
@@ -223,6 +224,9 @@ func (l *Lexer) Next() (TokenType, []byte) {
 func (l *Lexer) shiftRawText() []byte {
 	if l.rawTag == Plaintext {
 		for {
+			if l.skipTemplate() {
+				continue
+			}
 			if l.r.Peek(0) == 0 && l.r.Err() != nil {
 				return l.r.Shift()
 			}
@@ -253,6 +257,9 @@ func (l *Lexer) shiftRawText() []byte {
 					l.r.Move(2) // the dashes may be part of the closing -->, as in <!-->
 					inScript := false
 					for {
+						if l.skipTemplate() {
+							continue
+						}
 						c := l.r.Peek(0)
 						if c == '-' && l.r.Peek(1) == '-' && l.r.Peek(2) == '>' {
 							l.r.Move(3)
@@ -308,6 +315,9 @@ func (l *Lexer) readMarkup() (TokenType, []byte) {
 	if l.at('-', '-') {
 		l.r.Move(2)
 		for {
+			if l.skipTemplate() {
+				continue
+			}
 			if l.r.Peek(0) == 0 && l.r.Err() != nil {
 				l.text = l.r.Lexeme()[4:]
 				return CommentToken, l.r.Shift()
@@ -325,6 +335,9 @@ func (l *Lexer) readMarkup() (TokenType, []byte) {
 	} else if l.at('[', 'C', 'D', 'A', 'T', 'A', '[') {
 		l.r.Move(7)
 		for {
+			if l.skipTemplate() {
+				continue
+			}
 			if l.r.Peek(0) == 0 && l.r.Err() != nil {
 				l.text = l.r.Lexeme()[9:]
 				return TextToken, l.r.Shift()
@@ -342,6 +355,9 @@ func (l *Lexer) readMarkup() (TokenType, []byte) {
 				l.r.Move(1)
 			}
 			for {
+				if l.skipTemplate() {
+					continue
+				}
 				if c := l.r.Peek(0); c == '>' || c == 0 && l.r.Err() != nil {
 					l.text = l.r.Lexeme()[9:]
 					if c == '>' {
@@ -358,6 +374,9 @@ func (l *Lexer) readMarkup() (TokenType, []byte) {
 
 func (l *Lexer) shiftBogusComment() []byte {
 	for {
+		if l.skipTemplate() {
+			continue
+		}
 		c := l.r.Peek(0)
 		if c == '>' {
 			l.text = l.r.Lexeme()[2:]
@@ -498,6 +517,9 @@ func (l *Lexer) shiftAttribute() []byte {
 
 func (l *Lexer) shiftEndTag() []byte {
 	for {
+		if l.skipTemplate() {
+			continue
+		}
 		c := l.r.Peek(0)
 		if c == '>' {
 			l.text = l.r.Lexeme()[2:]
@@ -524,7 +546,7 @@ func (l *Lexer) shiftEndTag() []byte {
 	b := l.r.Shift()
 	n := 2
 	for n < len(b) {
-		if c := b[n]; c == ' ' || c == '\t' || c == '\n' || c == '\r' || c == '\f' || c == '/' || c == '>' {
+		if c := b[n]; c == ' ' || c == '\t' || c == '\n' || c == '\r' || c == '\f' || c == '/' || c == '>' || 0 < len(l.tmplBegin) && bytes.HasPrefix(b[n:], l.tmplBegin) {
 			break
 		}
 		n++
@@ -541,6 +563,9 @@ func (l *Lexer) shiftXML(rawTag Hash) []byte {
 	depth := 1         // open elements with the name of the root, the subtree ends with the end tag of the root
 	isRaw := true      // the tag we are inside is a start tag with the name of the root
 	for {
+		if l.skipTemplate() {
+			continue
+		}
 		c := l.r.Peek(0)
 		if inTag && c != 0 && (c == inQuote || inQuote == 0 && (c == '"' || c == '\'')) {
 			if inQuote == 0 {
@@ -624,6 +649,17 @@ func (l *Lexer) shiftXML(rawTag Hash) []byte {
 		l.r.Move(1)
 	}
 	return l.r.Shift()
+}
+
+// skipTemplate moves over a template that begins at the current position and reports whether there was one.
+func (l *Lexer) skipTemplate() bool {
+	if 0 < len(l.tmplBegin) && l.at(l.tmplBegin...) {
+		l.r.Move(len(l.tmplBegin))
+		l.moveTemplate()
+		l.hasTmpl = true
+		return true
+	}
+	return false
 }
 
 func (l *Lexer) moveTemplate() {
